@@ -32,6 +32,8 @@ SCENARIOS = {
     'estab_c09':  dict(BASE, KnownToBothOnly=True, MaxLoss=1),
     'estab_pfs':  dict(BASE, ChildDh='DhMismatch', Triggers=('acquire', 'soft', 'hard')),
     'estab_rekey_ke': dict(BASE, IkeDh='DhMismatch', Triggers=('rekeyike', 'soft', 'delike')),
+    # PFS without a retry: crossing CREATE_CHILD_SA exchanges (new child / rekey) that both carry KE payloads
+    'estab_pfs_same': dict(BASE, ChildDh='DhSame', Triggers=('acquire', 'soft')),
     'estab3':     dict(BASE, MaxTrig=3, MaxDup=1),
     'estab3_c09': dict(BASE, MaxTrig=3, MaxDup=1, KnownToBothOnly=True),
     'live':       dict(BASE, MaxTrig=1, MaxDup=0, MaxLoss=1, KnownToBothOnly=True, FreeRetx=True),
